@@ -14,7 +14,7 @@ pub fn def() -> PropDef {
     PropDef {
         id: "C16",
         level: "exploration",
-        profiles: &["checked"],
+        profiles: &["checked", "fast"],
         abort_is_violation: false,
         rule: "complete enumeration of all strings over {SP,TAB,CR,LF,'x'} of length 0..6 x every start \
                offset 0..=len+1 x {fully buffered, 1 byte per read with chunk size 1, 3-byte chunks} x \
